@@ -26,7 +26,10 @@ ASSUMPTIONS = [
     "str(tz) equality (the model document names the same zone)",
     "'shifted' is decided at slot level for whole-hour transitions: feeding the clock normalisation the slot numbers 24*day+hour, every "
     "row must receive its own (local date, local hour) slot, the second occurrence of a repeated hour the mean of its neighbours' slots",
-    "the hourly model's coefficients come from one fit in America/Chicago; only baseline_timezone is replaced per zone",
+    "parts H and L: the hourly model's coefficients come from one fit in America/Chicago; only baseline_timezone is replaced per zone; "
+    "part M fits one model per meter shape (default settings, seed 7)",
+    "hourly frames carry temperature (and usage) only; supplemental feature columns, where a model is configured with them, are the "
+    "caller's and are complete",
     "daily/billing rows sit at local midnight (shifted forward where midnight does not exist)",
 ]
 
